@@ -5,12 +5,13 @@ p = "/verif/DESIGN.md"
 s = open(p).read()
 head = "| seed | valid (tests green, demo fails only with it) | detected by | what it needs (from the seeder's notes) |"
 i = s.index(head)
-j = s.index("\n## Corrections", i)
+# the table ends at the first blank line after its header (anything after it - the benign-wave section - is kept)
+j = s.index("\n\n", i) + 1
 tbl = subprocess.run([sys.executable, "/verif/tools/seed_table.py"], capture_output=True, text=True, check=True).stdout
 k = tbl.index("| seed |") if "| seed |" in tbl else 0
 tbl = tbl[k:].rstrip("\n")
 if not tbl.startswith("| seed |"):
     tbl = head + "\n|---|---|---|---|\n" + tbl
-s = s[:i] + tbl + "\n\n" + s[j:]
+s = s[:i] + tbl + "\n" + s[j:]
 open(p, "w").write(s)
 print("rows:", tbl.count("\n") - 1)
